@@ -297,6 +297,7 @@ def impl_obs(case):
                 if case.get("tczyx"):
                     exp = exp.reshape((exp.shape[0],) + (1,) * (5 - exp.ndim) + exp.shape[1:])
                 obs["seg"] = {"shape": list(got.shape), "exp_shape": list(exp.shape), "dtype": got.dtype.name,
+                              "chunks": list(arr.chunks), "frame_shape": list(arrays[0].shape), "n_files": len(arrays),
                               "exp_dtype": exp.dtype.name,
                               "equal": bool(got.shape == exp.shape and np.array_equal(got, exp)),
                               "zarr_format": arr.metadata.zarr_format}
@@ -665,6 +666,21 @@ def run(ck: common.Check):
                 if d is not None:
                     ck.corr_broken("C15:fromCtc", c, {k: o.get(k) for k in ("exc", "msg", "node_ids", "edges", "axes")},
                                    {"diff": d, "model": mo})
+    # shape / chunks of the exported segmentation array against the model (segShape / segChunks)
+    seg_idx = [i for i, o in enumerate(obs_all) if isinstance(o.get("seg"), dict) and "shape" in o["seg"]]
+    seg_model = drv.ask([{"op": "seg", "n": obs_all[i]["seg"]["n_files"], "shape": obs_all[i]["seg"]["frame_shape"],
+                          "tczyx": bool(cases[i].get("tczyx"))} for i in seg_idx]) if seg_idx else []
+    if seg_model is None:
+        ck.broken.append({"what": "driver Drivers/C15.lean (seg)", "detail": drv.broken})
+    else:
+        for i, mo in zip(seg_idx, seg_model):
+            sg = obs_all[i]["seg"]
+            if "err" in mo or mo["shape"] != sg["shape"] or mo["chunks"] != sg["chunks"]:
+                ck.corr_broken("C15:segShape", cases[i], {"shape": sg["shape"], "chunks": sg["chunks"]}, mo)
+    ck.extra["segmentation_shapes_compared_with_model"] = len(seg_idx)
+    ck.extra["partial"] = ("proof for the graph construction (nodes, edges, axes, validity, tracklets, outcome) and the "
+                           "segmentation array shape; tiff decoding, regionprops/centroid arithmetic, the exported pixel "
+                           "data and the related-object path are differential tests only")
     ck.extra.update({"segmentation_exports_compared": int(n_seg), "through_cli": int(n_cli),
                      "geff_tracklet_validator_agrees_with_oracle": int(n_validator_agrees)})
     ck.assumptions += [
